@@ -102,6 +102,23 @@ def run(prop, tier, replay=None):
             ndrift += 1
             if ndrift <= 3:
                 V.add_drift(f"scenario {r['id']}: model predicts {p['res']} exit {p['exit']}, observed {r['obs']['res']} exit {r['obs']['exit']}")
+    # ---- VAL(A): hook events (PickLimit / ExecEnd / DocStart) are steps of the (A) machine
+    steps = []
+    for r in records:
+        ev = r["obs"].pop("events", [])
+        steps.append({"ev": "Scenario", "sc": r["sc"], "id": r["id"]})
+        for e in ev:
+            steps.append({k2: e[k2] for k2 in e if k2 not in ("seq", "pid", "path", "format")})
+    spath = os.path.join(work, "steps.ndjson")
+    write_ndjson(spath, steps)
+    rs_ = tlc("TestCommandStepTrace", "TestCommandStepTrace.cfg", work, workers=1, env={"TRACE": spath}, depth_first=True, timeout=1200,
+              line_filter=lambda l: l.startswith("<<") or l.startswith("Error") or "violated" in l)
+    accepted = bool(rs_.printed("ACCEPTED"))
+    cov_steps = {"step_events_total": len(steps), "step_trace_accepted": accepted}
+    if not accepted:
+        dr = rs_.printed("DRIFT")
+        ndrift_steps = 1
+        V.add_drift(f"step trace rejected at event {dr[0][0] if dr else '?'} of {len(steps)}: {str(dr[0][1])[:200] if dr else rs_.error}")
     # ---- VAL(P)
     slim = lambda r: {"ev": "Run", "id": r["id"], "sc": r["sc"],
                       "obs": {k: r["obs"][k] for k in ("res", "ran", "exit", "aborted", "dupes", "sumok", "wallds", "late")}}
@@ -131,7 +148,7 @@ def run(prop, tier, replay=None):
             "distinct_nontrivial": len({json.dumps(r["sc"], sort_keys=True) for r in records
                                         if sum(len(d["tests"]) for d in r["sc"]["docs"]) >= 2}),
             "rule": "one evaluation = one run of the real scrut binary on a materialised scenario; non-trivial = at least two test cases; distinct by scenario",
-            "drift_runs": ndrift,
+            "drift_runs": ndrift, **cov_steps,
             "verdict_lines_for_sibling_properties": sibling,
             "known_findings_seen": known,
             "build_s": round(build_s, 1),
